@@ -77,6 +77,10 @@ def concretise(tv):
             return bool(tv["v"])
         if tv["kind"] == "bitarray":
             return m["bitarray"](list(tv["v"]))
+        if tv["kind"] == "bytes":
+            return bytes(bytearray([tv["v"]]))
+        if tv["kind"] == "bits":
+            return m["bitarray"]([int(c) for c in format(tv["v"], "03b")])
         return tv["v"]
     if k == "l":
         return [concretise(x) for x in tv["items"]]
@@ -112,11 +116,11 @@ def call(sd, o):
         if kind == "sint":
             return sd.sint(o["t"])
         if kind == "bytes":
-            return sd.bytes(o["t"], o["n"])
-        if kind == "bitarray":
-            return sd.bitarray(o["t"], o["n"])
+            return sd.bytes(o["t"], o.get("n", 1))
+        if kind in ("bitarray", "bits"):
+            return sd.bitarray(o["t"], o.get("n", 3))
         if kind == "uint_lit":
-            return sd.uint_lit(o["t"], o["n"])
+            return sd.uint_lit(o["t"], o.get("n", 1))
     if op == "declare_list":
         return sd.declare_list(o["t"])
     if op == "enter":
@@ -517,6 +521,7 @@ CONFIGS = [
     (CFG, "programs, whole alphabet (exhaustive over abstract transitions)", 4, 5, True),
     ("mc/SerDesLists.cfg", "programs, lists of typed subcontexts (exhaustive over abstract transitions)", 8, 11, False),
     ("mc/SerDesFaults.cfg", "programs, every fault kind in nested / typed contexts (exhaustive over abstract transitions)", 6, 7, False),
+    ("mc/SerDesBlocks.cfg", "programs of fixed-width primitives (bytes, bit arrays, uint_lit, bool) in and around bounded blocks (exhaustive over abstract transitions)", 4, 5, False),
 ]
 # single-worker TLC (VIEW + length-bounded hist needs strict BFS); few GC threads because the box is shared, but the
 # optimising JIT stays on (C1-only made these 20-100 s runs 2-3 times slower)
@@ -654,7 +659,7 @@ def run(ctx):
         tots[i] = t
     for r, (c, cst) in zip(runs, confs):
         ctx.add_tlc(r, c[1], dict(cst, cfg=c[0]))
-    const, const_l, const_f = [cst for _, cst in confs]
+    const, const_l, const_f, const_b = [cst for _, cst in confs]
     per_conf = {c[0].split("/")[-1]: t for (c, _), t in zip(confs, tots)}
     lists_tot = per_conf["SerDesLists.cfg"]
     tot = merge(tots)
@@ -695,6 +700,7 @@ def run(ctx):
                 "SerDes.cfg": dict(const, targets="a (plain), l (list), s (subcontext), m (list of subcontexts), c (computed), p/q (padding)", values="1-2 per primitive kind", types="dict + 2 fixeddict types"),
                 "SerDesLists.cfg": dict(const_l, alphabet="uint a, declare_list m, subcontext_enter m, subcontext_leave, set_context_type TA/TB; faults none/extra/listlong"),
                 "SerDesFaults.cfg": dict(const_f, alphabet="uint a/l, declare_list l/m, subcontext_enter s/m, subcontext_leave, set_context_type TA; every fault kind"),
+                "SerDesBlocks.cfg": dict(const_b, alphabet="bytes(1) / bitarray(3) / uint_lit(1) / bool on targets a, b, d; bounded_block_begin(1 | 4), bounded_block_end, byte_align"),
                 "given_forms": "typed, plain dicts, fixeddict types exchanged",
                 "non_list_values": "7, 'x', (1,), {'k': 1} (truthy); 0, False, None, '', b'', {}, (), 0.0, bitarray() (falsy)",
             },
